@@ -84,3 +84,104 @@ pub fn subset(reqs: &[ConstraintRequest], p: u32) -> (Vec<ConstraintRequest>, Ve
     }
     (out, pos)
 }
+
+/// An independent reference iteration: dense damped Gauss-Newton on the real error measures with a
+/// central-difference Jacobian (no use of the implementation's derivative code, sparsity pattern,
+/// LU or stopping rules).  Returns `(rounds, values)` when the largest error drops to `tol` within
+/// `max_rounds`.
+pub fn reference_gauss_newton(reqs: &[ConstraintRequest], x0: &[f64], tol: f64, max_rounds: usize) -> Option<(usize, Vec<f64>)> {
+    use kcl_ezpz::verif_hooks as vh;
+    let n = x0.len();
+    let residual = |x: &[f64]| -> Vec<f64> {
+        let mut r = Vec::new();
+        for q in reqs {
+            let (res, _) = vh::residual(q.constraint(), x);
+            for k in 0..vh::residual_dim(q.constraint()) {
+                r.push(res[k]);
+            }
+        }
+        r
+    };
+    let mut x = x0.to_vec();
+    for round in 0..=max_rounds {
+        let r = residual(&x);
+        if r.iter().any(|v| !v.is_finite()) {
+            return None;
+        }
+        if r.iter().fold(0.0f64, |a, v| a.max(v.abs())) <= tol {
+            return Some((round, x));
+        }
+        if round == max_rounds {
+            return None;
+        }
+        let m = r.len();
+        // central-difference Jacobian, only over the variables the requests mention
+        let mut jac = vec![vec![0.0f64; n]; m];
+        let mut used = vec![false; n];
+        for q in reqs {
+            for id in vh::nonzeroes(q.constraint()).into_iter().flatten() {
+                if (id as usize) < n {
+                    used[id as usize] = true;
+                }
+            }
+        }
+        for j in 0..n {
+            if !used[j] {
+                continue;
+            }
+            let h = 1e-6 * x[j].abs().max(1.0);
+            let mut xp = x.clone();
+            xp[j] += h;
+            let mut xm = x.clone();
+            xm[j] -= h;
+            let (rp, rm) = (residual(&xp), residual(&xm));
+            for i in 0..m {
+                jac[i][j] = (rp[i] - rm[i]) / (2.0 * h);
+            }
+        }
+        // normal equations (J^T J + 1e-9 I) d = -J^T r, Gaussian elimination with partial pivoting
+        let mut a = vec![vec![0.0f64; n + 1]; n];
+        for p in 0..n {
+            for q in 0..n {
+                let mut s = 0.0;
+                for i in 0..m {
+                    s += jac[i][p] * jac[i][q];
+                }
+                a[p][q] = s;
+            }
+            a[p][p] += 1e-9;
+            let mut s = 0.0;
+            for i in 0..m {
+                s += jac[i][p] * r[i];
+            }
+            a[p][n] = -s;
+        }
+        for c in 0..n {
+            let piv = (c..n).max_by(|&u, &v| a[u][c].abs().partial_cmp(&a[v][c].abs()).unwrap_or(std::cmp::Ordering::Equal))?;
+            if a[piv][c].abs() < 1e-300 {
+                return None;
+            }
+            a.swap(c, piv);
+            for rr in c + 1..n {
+                let f = a[rr][c] / a[c][c];
+                if f != 0.0 {
+                    for cc in c..=n {
+                        a[rr][cc] -= f * a[c][cc];
+                    }
+                }
+            }
+        }
+        let mut d = vec![0.0f64; n];
+        for c in (0..n).rev() {
+            let mut s = a[c][n];
+            for cc in c + 1..n {
+                s -= a[c][cc] * d[cc];
+            }
+            d[c] = s / a[c][c];
+        }
+        for j in 0..n {
+            x[j] += d[j];
+        }
+    }
+    None
+}
